@@ -350,7 +350,7 @@ class Report:
         return 1 if violations else 0
 
 
-def validate_traces(module, cfg, executions, wdir, tag, chunks=None, env=None, timeout_s=900, xmx="4g"):
+def validate_traces(module, cfg, executions, wdir, tag, chunks=None, env=None, timeout_s=900, xmx="4g", reset_fields=None):
     """Trace validation of many executions with one TLC run per chunk (in parallel).
     executions: list of (id, [event dicts]); a {"e":"Reset","id":id} line is put in front of each.
     The trace module must print 'VERDICT {"lines":..,"ops":..,"bad":[{"id","line","why","op"}..]}'.
@@ -367,7 +367,10 @@ def validate_traces(module, cfg, executions, wdir, tag, chunks=None, env=None, t
         path = os.path.join(wdir, "%s.trace.%d.ndjson" % (tag, n))
         with open(path, "w") as f:
             for cid, evs in part:
-                f.write(json.dumps({"e": "Reset", "id": cid}, separators=(",", ":")) + "\n")
+                rl = {"e": "Reset", "id": cid}
+                if reset_fields and cid in reset_fields:
+                    rl.update(reset_fields[cid])
+                f.write(json.dumps(rl, separators=(",", ":")) + "\n")
                 for e in evs:
                     f.write(json.dumps(e, separators=(",", ":")) + "\n")
         e2 = {"TRACE": path}
